@@ -188,8 +188,10 @@ def _reuse_case(c):
 def cases(tier):
     out = []
     # the last boxes of d=2,3 are chosen so that a bound of one dimension coincides with an interior dyadic coordinate of another
-    boxes = {1: [([0.0], [1.0]), ([-1.0], [3.0]), ([-3.0], [6.0])],
-             2: [([0.0, 0.0], [1.0, 1.0]), ([-1.0, -1.0], [3.0, 3.0]), ([-3.0, 2.0], [6.0, 4.0]), ([-1.0, 0.0], [1.0, 1.0]), ([0.0, 1.0], [2.0, 3.0])],
+    # ... and one box far from the origin (grid spacing tiny relative to the coordinates: exact vs tolerance-based comparisons)
+    boxes = {1: [([0.0], [1.0]), ([-1.0], [3.0]), ([-3.0], [6.0]), ([1048576.0], [1048577.0])],
+             2: [([0.0, 0.0], [1.0, 1.0]), ([-1.0, -1.0], [3.0, 3.0]), ([-3.0, 2.0], [6.0, 4.0]), ([-1.0, 0.0], [1.0, 1.0]), ([0.0, 1.0], [2.0, 3.0]),
+                 ([1048576.0, 0.0], [1048578.0, 1.0])],
              3: [([0.0, 0.0, 0.0], [1.0, 1.0, 1.0]), ([-1.0, -1.0, -1.0], [3.0, 3.0, 3.0]), ([-3.0, 2.0, 0.0], [6.0, 4.0, 1.0]),
                  ([-2.0, -1.0, 0.0], [2.0, 3.0, 1.0])]}
     maxl = {1: 5, 2: 4, 3: 3} if tier != "quick" else {1: 5, 2: 4, 3: 3}
